@@ -75,6 +75,11 @@ def _gen_case(rng, tier):
     if case['via'] == 'wsgi' and case.get('fault') and rng.random() < 0.4:
         case['retry'] = True     # the handler touches the body again after the rejection
     if case['via'] == 'wsgi' and rng.random() < 0.1:
+        # an application whose errors_map names only the base class of the request errors
+        case['errors_map'] = 'base_only'
+        if case.get('fault'):
+            case['retry'] = True
+    if case['via'] == 'wsgi' and rng.random() < 0.1:
         # a Content-Length header next to Transfer-Encoding: chunked: the transfer coding decides (RFC 7230 3.3.3)
         case['cl_too'] = rng.choice([0, 1, 5, 17, 100000])
     return case
@@ -165,7 +170,7 @@ def _run_case(case):
                 outcome, detail = 'server-error', f'{type(e).__name__}: {e}'
     else:
         o = body_request(wire, case['sched'], B=B, chunked=True, cl=case.get('cl_too'), tempmode=case['temp'],
-                         touch=('body',), retry=(3 if case.get('retry') else 0))
+                         touch=('body',), retry=(3 if case.get('retry') else 0), errors_map=case.get('errors_map'))
         stream = o.stream
         log('status', o.resp.status)
         if 'retry_body' in o.seen:
